@@ -195,7 +195,12 @@ package sftp
 // (reflection-driven encoder, body not verified: assumed to append to b only)
 
 //@ func fileStatFromInfoOs
+//@   property C17
+//@   requires fi != nil && flags != nil && fileStat != nil
+//@   ensures fileStat.Size == old(fileStat.Size) && fileStat.Mode == old(fileStat.Mode) && fileStat.Mtime == old(fileStat.Mtime) && fileStat.Atime == old(fileStat.Atime)
+//@   ensures *flags & old(*flags) == old(*flags) && *flags & ^(old(*flags) | sshFileXferAttrUIDGID) == 0
 //@   modifies *flags, *fileStat
+// (the OS-specific part adds owner information only: it never clears a flag and never touches size, mode or times)
 
 //@ ghost var swErr bool
 
@@ -2188,10 +2193,16 @@ package sftp
 //@   modifies nothing
 
 //@ func fileStatFromInfo
+//@   update after call (os.FileInfo).Size#1: ghost.gSize = ret
+//@   update after call (os.FileInfo).Mode#1: ghost.gMode = uint32(ret)
+//@   ensures st.Size == uint64(ghost.gSize)
+//@   ensures st.Mode == fromFileMode(os.FileMode(ghost.gMode))
+//@   ensures st.Atime == st.Mtime
+// (C17: the size and the mode word put on the wire are the FileInfo's own, converted by fromFileMode)
 //@   property C06, C17
-//@   results flags, fs
+//@   results flags, st
 //@   requires fi != nil
-//@   ensures fs != nil
+//@   ensures st != nil
 
 // ---------------------------------------------------------------------------
 // shutdown of the packet manager (C02: every received request is answered, also when the input ends right behind it)
@@ -2231,6 +2242,8 @@ package sftp
 //@   modifies nothing
 
 //@ ghost var wfail bool
+//@ ghost var gSize int64
+//@ ghost var gMode uint32
 //@ ghost var wTaken int
 //@ ghost var wDone int
 //@ ghost var errOpen bool
@@ -2285,3 +2298,173 @@ package sftp
 
 // (C05 / C03: every single-request operation of the Client sends the request type that belongs to it, with the id it
 //  just allocated and its own arguments in the fields the server reads them from)
+
+// ---------------------------------------------------------------------------
+// flag translations and thin API wrappers (C05 client half, C10 request-attrs.go, C17)
+
+//@ func toPflags
+//@   property C05, C10
+//@   function
+//@   ensures (result & sshFxfRead != 0) <==> (f & 3 == os.O_RDONLY || f & 3 == os.O_RDWR)
+//@   ensures (result & sshFxfWrite != 0) <==> (f & 3 == os.O_WRONLY || f & 3 == os.O_RDWR)
+//@   ensures (result & sshFxfAppend != 0) <==> (f & os.O_APPEND != 0)
+//@   ensures (result & sshFxfCreat != 0) <==> (f & os.O_CREATE != 0)
+//@   ensures (result & sshFxfTrunc != 0) <==> (f & os.O_TRUNC != 0)
+//@   ensures (result & sshFxfExcl != 0) <==> (f & os.O_EXCL != 0)
+//@   ensures result & ^uint32(sshFxfRead | sshFxfWrite | sshFxfAppend | sshFxfCreat | sshFxfTrunc | sshFxfExcl) == 0
+
+//@ func (*Client).Open
+//@   property C05
+//@   requires connOK(c)
+//@   assert before call (*Client).open#1: arg1 == path && arg2 == sshFxfRead
+
+//@ func (*Client).Create
+//@   property C05
+//@   requires connOK(c)
+//@   assert before call (*Client).open#1: arg1 == path && arg2 == sshFxfRead | sshFxfWrite | sshFxfCreat | sshFxfTrunc
+
+//@ func (*Client).OpenFile
+//@   property C05
+//@   requires connOK(c)
+//@   assert before call (*Client).open#1: arg1 == path && arg2 == toPflags(f)
+
+//@ func (*Client).Chmod
+//@   property C05, C17
+//@   requires connOK(c)
+//@   assert before call (*Client).setstat#1: arg1 == path && arg2 == sshFileXferAttrPermissions && typeis(arg3, uint32) && arg3.(uint32) == toChmodPerm(mode)
+
+//@ func (*Client).Truncate
+//@   property C05, C17
+//@   requires connOK(c)
+//@   assert before call (*Client).setstat#1: arg1 == path && arg2 == sshFileXferAttrSize && typeis(arg3, uint64) && arg3.(uint64) == uint64(size)
+
+//@ func (*Client).Chown
+//@   property C05, C17
+//@   requires connOK(c)
+//@   assert before call (*Client).setstat#1: arg1 == path && arg2 == sshFileXferAttrUIDGID
+
+//@ func (*Client).Chtimes
+//@   property C05, C17
+//@   requires connOK(c)
+//@   assert before call (*Client).setstat#1: arg1 == path && arg2 == sshFileXferAttrACmodTime
+
+//@ func newFileOpenFlags
+//@   property C10
+//@   function
+//@   ensures result.Read == (flags & sshFxfRead != 0) && result.Write == (flags & sshFxfWrite != 0) && result.Append == (flags & sshFxfAppend != 0)
+//@   ensures result.Creat == (flags & sshFxfCreat != 0) && result.Trunc == (flags & sshFxfTrunc != 0) && result.Excl == (flags & sshFxfExcl != 0)
+
+//@ func newFileAttrFlags
+//@   property C10, C17
+//@   function
+//@   ensures result.Size == (flags & sshFileXferAttrSize != 0) && result.UidGid == (flags & sshFileXferAttrUIDGID != 0)
+//@   ensures result.Permissions == (flags & sshFileXferAttrPermissions != 0) && result.Acmodtime == (flags & sshFileXferAttrACmodTime != 0)
+
+//@ func (*Request).Pflags
+//@   property C10
+//@   requires r != nil
+//@   ensures result.Read == (r.Flags & sshFxfRead != 0) && result.Write == (r.Flags & sshFxfWrite != 0) && result.Append == (r.Flags & sshFxfAppend != 0) && result.Creat == (r.Flags & sshFxfCreat != 0) && result.Trunc == (r.Flags & sshFxfTrunc != 0) && result.Excl == (r.Flags & sshFxfExcl != 0)
+
+//@ func (*Request).AttrFlags
+//@   property C10
+//@   requires r != nil
+//@   ensures result.Size == (r.Flags & sshFileXferAttrSize != 0) && result.UidGid == (r.Flags & sshFileXferAttrUIDGID != 0) && result.Permissions == (r.Flags & sshFileXferAttrPermissions != 0) && result.Acmodtime == (r.Flags & sshFileXferAttrACmodTime != 0)
+
+//@ func (*Request).Attributes
+//@   property C10
+//@   requires r != nil
+//@   assert before call unmarshalFileStat#1: arg0 == r.Flags && arg1 == r.Attrs
+
+//@ func fileInfoFromStat
+//@   property C17
+//@   ensures typeis(result, *fileInfo) && result.(*fileInfo).stat == stat && result.(*fileInfo).name == name
+//@   modifies nothing
+
+//@ func (*fileInfo).Size
+//@   property C17
+//@   requires fi != nil && fi.stat != nil
+//@   ensures result == int64(fi.stat.Size)
+//@   modifies nothing
+
+//@ func (*fileInfo).Mode
+//@   property C17
+//@   requires fi != nil && fi.stat != nil
+//@   ensures result == toFileMode(fi.stat.Mode)
+//@   modifies nothing
+
+//@ func (*fileInfo).Name
+//@   property C17
+//@   requires fi != nil
+//@   ensures result == fi.name
+//@   modifies nothing
+
+//@ func (*fileInfo).Sys
+//@   property C17
+//@   requires fi != nil && fi.stat != nil
+//@   ensures typeis(result, *FileStat) && result.(*FileStat) == fi.stat
+//@   modifies nothing
+
+//@ func (*fileInfo).ModTime
+//@   property C17
+//@   requires fi != nil && fi.stat != nil
+//@   assert before call (*FileStat).ModTime#1: arg0 == fi.stat
+
+//@ func (*FileStat).ModTime
+//@   property C17
+//@   requires fs != nil
+//@   assert before call time.Unix#1: arg0 == int64(fs.Mtime) && arg1 == 0
+
+//@ func (*FileStat).AccessTime
+//@   property C17
+//@   requires fs != nil
+//@   assert before call time.Unix#1: arg0 == int64(fs.Atime) && arg1 == 0
+
+//@ func (*FileStat).FileMode
+//@   property C17
+//@   requires fs != nil
+//@   ensures result == toFileMode(fs.Mode)
+//@   modifies nothing
+// (the modification time shown is the wire value, to the second)
+
+// ---------------------------------------------------------------------------
+// options (C01: the client's packet size never exceeds what a server accepts unless the caller opts out of the check;
+// a server's maximum payload can only be raised)
+
+//@ func MaxPacketChecked$1
+//@   property C01
+//@   requires c != nil
+//@   ensures result == nil ==> c.maxPacket == size && size >= 1 && size <= 32768
+//@   ensures result != nil ==> c.maxPacket == old(c.maxPacket)
+
+//@ func MaxPacketUnchecked$1
+//@   property C01
+//@   requires c != nil
+//@   ensures result == nil ==> c.maxPacket == size && size >= 1
+//@   ensures result != nil ==> c.maxPacket == old(c.maxPacket)
+
+//@ func MaxConcurrentRequestsPerFile$1
+//@   property C01
+//@   requires c != nil
+//@   ensures result == nil ==> c.maxConcurrentRequests == n && n >= 1
+//@   ensures result != nil ==> c.maxConcurrentRequests == old(c.maxConcurrentRequests)
+
+//@ func UseConcurrentWrites$1
+//@   property C01
+//@   requires c != nil
+//@   ensures result == nil && c.useConcurrentWrites == value
+
+//@ func UseConcurrentReads$1
+//@   property C01
+//@   requires c != nil
+//@   ensures result == nil && c.disableConcurrentReads == !value
+
+//@ func WithMaxTxPacket$1
+//@   property C01
+//@   requires s != nil
+//@   ensures result == nil ==> s.maxTxPacket == size && size >= 32768
+//@   ensures result != nil ==> s.maxTxPacket == old(s.maxTxPacket)
+
+//@ func WithRSMaxTxPacket$1
+//@   property C01
+//@   requires rs != nil
+//@   ensures rs.maxTxPacket == size && size >= 32768 || rs.maxTxPacket == old(rs.maxTxPacket)
